@@ -64,6 +64,14 @@ def run(seed, count, order):
         idx.reverse()
     elif order.startswith("shuffle"):
         random.Random(int(order[7:] or 0)).shuffle(idx)
+    if order.startswith("poisoned"):
+        # history: a render that fails (a non-finite float has no Nix spelling) happened earlier in this thread
+        try:
+            from nix_manipulator.expressions.set import AttributeSet
+
+            AttributeSet.from_dict({"ok": 1, "ratio": float("nan")}).rebuild()
+        except Exception:  # noqa: BLE001
+            pass
     out = {}
     for i in idx:
         out[i] = digest(evaluate(*items[i]))
